@@ -275,6 +275,9 @@ func c03(c *Ctx) {
 	n += viewIdentity(c)
 	n += profileDispatch(c)
 	r.Floor("C03 rows", n, 45)
+	np := presenceRule(c, "rtp.(*Packet).Unmarshal", []presRow{{"Header.Padding", []string{"PaddingSize"}}})
+	np += presenceRule(c, "rtp.(*Header).Unmarshal", []presRow{{"Extension", []string{"ExtensionProfile"}}})
+	r.Floor("C03 presence rows", np, 2)
 	pu := p.Func("rtp.(*Packet).Unmarshal")
 	c.wrapScope = map[string]bool{"rtp.(*Header).Unmarshal": true, "rtp.(*Packet).Unmarshal": true}
 	boundsRun(c, []*ssa.Function{hu, pu}, headerContracts(c, true))
